@@ -67,7 +67,7 @@ def _depth():
 # --------------------------------------------------------------------------
 ERRNO = {n: getattr(_errno, n) for n in
          ('EIO', 'ENOSPC', 'EACCES', 'ENOENT', 'EEXIST', 'EMFILE', 'EXDEV',
-          'EINTR', 'ENOTDIR', 'EISDIR', 'EROFS', 'EDQUOT', 'EPERM')}
+          'EINTR', 'ENOTDIR', 'EISDIR', 'EROFS', 'EDQUOT', 'EPERM', 'EAGAIN', 'ESTALE', 'EBUSY', 'ENAMETOOLONG')}
 
 # which actions make sense at which site (used by sweeps and seeded plans)
 SITE_ACTIONS = {
@@ -76,11 +76,12 @@ SITE_ACTIONS = {
     'os.scandir': [('errno', 'EACCES')],
     'os.makedirs': [('errno', 'EACCES'), ('errno', 'ENOSPC'), ('errno', 'EEXIST')],
     'os.mkdir': [('errno', 'EACCES'), ('errno', 'ENOSPC')],
-    'mkstemp': [('errno', 'EACCES'), ('errno', 'ENOSPC'), ('errno', 'EMFILE')],
-    'os.write': [('errno', 'EIO'), ('errno', 'ENOSPC'), ('errno', 'EDQUOT'),
+    'mkstemp': [('errno', 'EACCES'), ('errno', 'ENOSPC'), ('errno', 'EMFILE'), ('errno', 'ESTALE')],
+    # the "transient" family (EAGAIN, ESTALE as network filesystems report them) is what retry logic keys on
+    'os.write': [('errno', 'EIO'), ('errno', 'ENOSPC'), ('errno', 'EDQUOT'), ('errno', 'EAGAIN'), ('errno', 'ESTALE'),
                  ('short', 0), ('short', 1), ('short', 'half'), ('short', 'n-1')],
-    'os.close': [('errno', 'EIO')],
-    'os.rename': [('errno', 'EACCES'), ('errno', 'ENOSPC'), ('errno', 'EXDEV')],
+    'os.close': [('errno', 'EIO'), ('errno', 'EDQUOT'), ('errno', 'ESTALE')],
+    'os.rename': [('errno', 'EACCES'), ('errno', 'ENOSPC'), ('errno', 'EXDEV'), ('errno', 'ESTALE'), ('errno', 'EBUSY')],
     'os.unlink': [('errno', 'EACCES'), ('errno', 'EIO')],
     'os.access': [('false', None)],
     'os.utime': [('errno', 'EPERM')],
